@@ -47,7 +47,28 @@ impl<'a> SentenceGen<'a> {
     }
 
     fn number(&mut self, out: &mut Vec<String>) {
-        out.push(self.p(&NUMS).to_string());
+        if self.rng.chance(1, 2) {
+            out.push(self.p(&NUMS).to_string());
+        } else {
+            // every digit in every position: 1..9 digits (always inside the i32 range), or a 10-digit value below 2·10^9
+            let len = 1 + self.rng.below(10);
+            let mut t = String::new();
+            if self.rng.chance(1, 3) {
+                t.push('-');
+            }
+            if len == 10 {
+                t.push('1');
+                for _ in 0..9 {
+                    t.push((b'0' + self.rng.below(10) as u8) as char);
+                }
+            } else {
+                t.push((b'1' + self.rng.below(9) as u8) as char);
+                for _ in 1..len {
+                    t.push((b'0' + self.rng.below(10) as u8) as char);
+                }
+            }
+            out.push(t);
+        }
     }
 
     /// expression = ... (every alternative of the ABNF)
